@@ -13,6 +13,8 @@ Loaded by gen.py (exec with helper functions `read`, `strip_comments`, `write_if
 """
 import re
 
+OUTPUTS = ['StaticTable.v']
+
 # http crate constants that occur in the two functions -> wire spelling.
 METHODS = {"GET": "GET", "POST": "POST"}
 STATUS = {"OK": "200", "NO_CONTENT": "204", "PARTIAL_CONTENT": "206", "NOT_MODIFIED": "304",
